@@ -19,17 +19,30 @@ import (
 
 // C19: the asset handler that Module.Configure registers on DefaultMux at
 // "/assets/", driven with raw request targets under net/http/httptest in a
-// temporary working directory that holds a generated frontend/dist tree and
-// canary files outside it.
+// temporary working directory that holds a generated frontend/dist tree,
+// canary files and directories outside it, and symbolic links (to files and
+// directories inside dist, to the canaries outside it, dangling, looping):
+// what a request resolves to is then decided by the real OS.
 type c19File struct {
 	Path string `json:"path"` // hex, relative (to frontend/dist for files, to the temp root for canaries)
 	Data string `json:"data"` // hex
+}
+
+// c19Link is a symbolic link anywhere below the temp root.  A target that
+// starts with "/" is taken relative to the temp root (the harness prefixes the
+// root's own absolute path), so that the case does not depend on where the
+// temporary directory happens to be; every other target is used verbatim.
+type c19Link struct {
+	Path   string `json:"path"`   // hex, relative to the temp root (e.g. frontend/dist/latest)
+	Target string `json:"target"` // hex
 }
 
 type c19Case struct {
 	Files     []c19File `json:"files"`     // regular files below frontend/dist
 	Dirs      []string  `json:"dirs"`      // hex, directories below frontend/dist (may be empty ones)
 	Canaries  []c19File `json:"canaries"`  // files outside frontend/dist, relative to the temp root
+	OutDirs   []string  `json:"outdirs"`   // hex, directories outside frontend/dist, relative to the temp root
+	Links     []c19Link `json:"links"`     // symbolic links, created after everything else
 	Whitelist []string  `json:"whitelist"` // hex
 	Raw       string    `json:"raw"`       // hex, request target exactly as a client would send it
 	Origin    *string   `json:"origin"`    // hex; null = no Origin header
@@ -95,17 +108,22 @@ func init() {
 }
 
 func c19Key(c c19Case) string {
-	b, _ := json.Marshal([]interface{}{c.Files, c.Dirs, c.Canaries, c.Whitelist})
+	b, _ := json.Marshal([]interface{}{c.Files, c.Dirs, c.Canaries, c.Whitelist, c.OutDirs, c.Links})
 	return fmt.Sprintf("%x", sha1.Sum(b))
 }
 
 // c19Setup writes the tree, changes into it and obtains the handler exactly
 // as the property says: Module{DefaultMux, Whitelist}.Configure(injector).
-func c19Setup(c c19Case, key string) (*c19Site, error) {
+func c19Setup(c c19Case, key string) (site *c19Site, err error) {
 	dir, err := os.MkdirTemp("", "pv19")
 	if err != nil {
 		return nil, err
 	}
+	defer func() {
+		if err != nil {
+			os.RemoveAll(dir)
+		}
+	}()
 	dist := filepath.Join(dir, "frontend", "dist")
 	if err := os.MkdirAll(dist, 0o755); err != nil {
 		return nil, err
@@ -128,6 +146,35 @@ func c19Setup(c c19Case, key string) (*c19Site, error) {
 	}
 	if err := writeTree(dir, files); err != nil {
 		return nil, err
+	}
+	below := func(p string) bool {
+		return !(strings.HasPrefix(p, "..") || filepath.IsAbs(p))
+	}
+	for _, d := range c.OutDirs {
+		p := filepath.Clean(filepath.FromSlash(unhx(d)))
+		if !below(p) {
+			return nil, fmt.Errorf("directory %q is not below the temp root", p)
+		}
+		if err := os.MkdirAll(filepath.Join(dir, p), 0o755); err != nil {
+			return nil, err
+		}
+	}
+	for _, l := range c.Links {
+		p := filepath.Clean(filepath.FromSlash(unhx(l.Path)))
+		if !below(p) {
+			return nil, fmt.Errorf("link %q is not below the temp root", p)
+		}
+		target := unhx(l.Target)
+		if strings.HasPrefix(target, "/") {
+			target = dir + target
+		}
+		full := filepath.Join(dir, p)
+		if err := os.MkdirAll(filepath.Dir(full), 0o755); err != nil {
+			return nil, err
+		}
+		if err := os.Symlink(target, full); err != nil {
+			return nil, err
+		}
 	}
 	if err := os.Chdir(dir); err != nil {
 		return nil, err
